@@ -91,6 +91,8 @@ type c01State struct {
 	maxInfl   int32
 	handled   int64
 	yieldMask uint32
+	callRoute map[string]string // carrier kind -> service method its handler is registered under
+	pushRoute map[string]string
 }
 
 var c01 atomic.Value // *c01State
@@ -120,6 +122,7 @@ func (s *c01State) leave() { atomic.AddInt32(&s.inflight, -1) }
 type metaPeeker interface {
 	PeekMeta(key string) []byte
 	VisitMeta(f func(key, value []byte))
+	ServiceMethod() string
 }
 
 // checkMeta verifies that the receiver sees exactly the metadata its sender
@@ -151,6 +154,10 @@ func handleCommon(kind string, ctx metaPeeker, get func() string) (string, *erpc
 	defer s.leave()
 	arg := get()
 	metaTok := string(ctx.PeekMeta("tok"))
+	sm := ctx.ServiceMethod()
+	if want := s.callRoute[kind]; sm != want {
+		s.fail("handler(%s) of %s: ctx.ServiceMethod() = %q, it is registered under and was called as %q", kind, metaTok, sm, want)
+	}
 	checkMeta("handler("+kind+")", ctx, s)
 	tok, err := checkBody(arg)
 	if err != nil {
@@ -164,6 +171,9 @@ func handleCommon(kind string, ctx metaPeeker, get func() string) (string, *erpc
 	}
 	if again := get(); again != arg {
 		s.fail("handler(%s): argument changed while the handler was running:\n first %s\n later %s", kind, vt.Trunc(arg), vt.Trunc(again))
+	}
+	if again := ctx.ServiceMethod(); again != sm {
+		s.fail("handler(%s) of %s: ctx.ServiceMethod() changed from %q to %q while the handler was running", kind, metaTok, sm, again)
 	}
 	return replyFor(arg, metaTok), nil
 }
@@ -223,6 +233,10 @@ func pushCommon(kind string, ctx metaPeeker, get func() string) *erpc.Status {
 	defer s.leave()
 	arg := get()
 	metaTok := string(ctx.PeekMeta("tok"))
+	sm := ctx.ServiceMethod()
+	if want := s.pushRoute[kind]; sm != want {
+		s.fail("push receiver(%s) of %s: ctx.ServiceMethod() = %q, want %q", kind, metaTok, sm, want)
+	}
 	checkMeta("push("+kind+")", ctx, s)
 	tok, err := checkBody(arg)
 	if err != nil {
@@ -233,6 +247,9 @@ func pushCommon(kind string, ctx metaPeeker, get func() string) *erpc.Status {
 	runtime.Gosched()
 	if again := get(); again != arg {
 		s.fail("push receiver(%s): argument changed while the receiver was running", kind)
+	}
+	if again := ctx.ServiceMethod(); again != sm {
+		s.fail("push receiver(%s) of %s: ctx.ServiceMethod() changed from %q to %q while the receiver was running", kind, metaTok, sm, again)
 	}
 	s.mu.Lock()
 	s.pushes[tok]++
@@ -298,6 +315,7 @@ type c01Op struct {
 	Pipe    []byte
 	Extra   int   // number of extra metadata pairs
 	XLens   []int // value length of each extra pair (0 = empty value)
+	Reuse   bool  // a synchronous call receives its result in the object this worker used for its previous call of that carrier
 }
 
 type c01Case struct {
@@ -325,6 +343,7 @@ func genC01(t *rapid.T, protos []vt.NamedProto, carrierSet []string) c01Case {
 				Len:     rapid.SampledFrom(lenClass).Draw(t, "len"),
 				Fill:    rapid.SampledFrom([]byte("abcxyz019")).Draw(t, "fill"),
 				Extra:   rapid.IntRange(0, 3).Draw(t, "extra"),
+				Reuse:   rapid.Bool().Draw(t, "reuse"),
 			}
 			for e := 0; e < ops[i].Extra; e++ {
 				ops[i].XLens = append(ops[i].XLens, rapid.SampledFrom([]int{0, 0, 1, 7, 40}).Draw(t, "xlen"))
@@ -359,6 +378,7 @@ func runC01(c c01Case, protos []vt.NamedProto) (errs []string, maxInfl int32, nm
 	b := w.Peer(erpc.PeerConfig{})
 	ra := registerC01(a)
 	rb := registerC01(b)
+	state.callRoute, state.pushRoute = ra.call, ra.push // the same names on both peers
 	proto := protoByName(protos, c.Proto)
 	links := make([]*vt.Link, c.Sessions)
 	for i := range links {
@@ -402,6 +422,7 @@ func runC01(c c01Case, protos []vt.NamedProto) (errs []string, maxInfl int32, nm
 				extra int
 			}
 			var pend []pending
+			lastRes := map[string]interface{}{} // per carrier: the result object of this worker's previous synchronous call
 			verify := func(p pending) {
 				cmd := p.cmd
 				<-cmd.Done()
@@ -440,6 +461,10 @@ func runC01(c c01Case, protos []vt.NamedProto) (errs []string, maxInfl int32, nm
 				switch op.Kind {
 				case "call":
 					res := car.newR()
+					if prev, ok := lastRes[op.Carrier]; ok && op.Reuse {
+						res = prev // a caller may keep one result object (or buffer) across calls
+					}
+					lastRes[op.Carrier] = res
 					cmd := sess.Call(rt.call[op.Carrier], car.mk(body), res, settings...)
 					verify(pending{cmd, body, tok, car, res, op.Extra})
 				case "async":
@@ -492,7 +517,7 @@ func runC01(c c01Case, protos []vt.NamedProto) (errs []string, maxInfl int32, nm
 	return errs, atomic.LoadInt32(&state.maxInfl), nmsgs
 }
 
-const ruleC01 = "generated concurrent program over raw/json/pb stream sessions and websocket sessions (json and protobuf sub-protocols, real upgrade): 1-3 sessions between two peers, 1-8 worker goroutines each issuing 1-12 Call/AsyncCall/Push ops in either direction, argument carrier type per codec (json/xml/form structs, plain *string/*[]byte/named string/named bytes, protobuf), payload length classes 0..5000, optional filter pipe, generated read-chunk schedule; every message is self-authenticating (token in body+metadata, payload checksum) and handlers are a pure function; non-trivial = >=2 handler executions overlapped (measured) or >=2 sessions active; distinct by the generated program"
+const ruleC01 = "generated concurrent program over raw/json/pb stream sessions and websocket sessions (json and protobuf sub-protocols, real upgrade): 1-3 sessions between two peers, 1-8 worker goroutines each issuing 1-12 Call/AsyncCall/Push ops in either direction, argument carrier type per codec (json/xml/form structs, plain *string/*[]byte/named string/named bytes, protobuf), payload length classes 0..5000, result objects fresh or reused from the worker's previous call, optional filter pipe, generated read-chunk schedule; every message is self-authenticating (token in body+metadata, payload checksum), handlers are a pure function and check that ctx.ServiceMethod() is theirs and stays so while they run; non-trivial = >=2 handler executions overlapped (measured) or >=2 sessions active; distinct by the generated program"
 
 func TestC01CrossTalk(t *testing.T) {
 	rec := vt.NewRec(t, "C01", "crosstalk", ruleC01)
